@@ -1,7 +1,6 @@
 SPECIFICATION Spec
 CONSTANTS
   N = 2
-  Lo = -2
-  Hi = 2
+  Rad = 2
   Bug = 0
 INVARIANTS PtsLaw ContainsPointLaw IntersectsLaw IntersectionLaw ContainsLaw ExtendLaw ExtendPointLaw CornerLaw ShrinkStretchLaw CenterLaw DistanceLaw
